@@ -167,3 +167,22 @@ B("ovf-bytes-len-minus", ["C08"],
 N("ovf-from_base_be-casts", ["C09", "C17"],
   [("src/base_convert.rs", "                carry += u128::from(*limb) * u128::from(base);\n                *limb = carry as u64;\n                carry >>= 64;\n            }\n            if carry > 0 || (LIMBS != 0",
     "                carry = carry + (*limb as u128) * (base as u128);\n                *limb = carry as u64;\n                carry >>= 64;\n            }\n            if carry > 0 || (LIMBS != 0")])
+
+# ---- R-FLOAT Uint->float: at most one inexact step
+B("float-f32-through-f64", ["C18"],
+  [("src/from.rs", "        let (bits, exponent) = value.most_significant_bits();\n        (bits as Self) * (exponent as Self).exp2()\n    }\n}\n\n#[cfg(feature = \"std\")]\nimpl<const BITS: usize, const LIMBS: usize> From<Uint<BITS, LIMBS>> for f64",
+    "        f64::from(value) as Self\n    }\n}\n\n#[cfg(feature = \"std\")]\nimpl<const BITS: usize, const LIMBS: usize> From<Uint<BITS, LIMBS>> for f64")],
+  "rounds more than once")
+N("float-mul-commuted", ["C18"],
+  [("src/from.rs", "        (bits as Self) * (exponent as Self).exp2()\n    }\n}\n\n#[cfg(feature = \"std\")]\nimpl<const BITS: usize, const LIMBS: usize> From<Uint<BITS, LIMBS>> for f64",
+    "        let scale = (exponent as Self).exp2();\n        scale * (bits as Self)\n    }\n}\n\n#[cfg(feature = \"std\")]\nimpl<const BITS: usize, const LIMBS: usize> From<Uint<BITS, LIMBS>> for f64")])
+
+# ---- R-FLAG/flag-range and the family-relative R-VARIANT (round-3 seed C01)
+B("flagrange-neg-not-plus-one", ["C01"],
+  [("src/add.rs", "        Self::ZERO.overflowing_sub(self)\n", "        let (value, carry) = self.not().overflowing_add(Self::ONE);\n        (value, !carry)\n")],
+  "overflowing_neg|flag-range")
+N("flagrange-neg-not-plus-one-guarded", ["C01", "C20"],
+  [("src/add.rs", "        Self::ZERO.overflowing_sub(self)\n", "        if BITS == 0 {\n            return (Self::ZERO, false);\n        }\n        let (value, carry) = self.not().overflowing_add(Self::ONE);\n        (value, !carry)\n")])
+B("variant-wrapping_sub-other-kernel", ["C01"],
+  [("src/add.rs", "        self.overflowing_sub(rhs).0\n", "        self.overflowing_add(rhs).0\n")],
+  "wrapping_sub|kernel")
